@@ -316,6 +316,7 @@ def rule_handlers(ctx, tu):
                   "`sample_pos < n_samples && t >= t_samples[sample_pos]`")
         body = kids(wl[0])[1]
         sts = [text(x) for x in kids(body)]
+        sts = ["sample_pos++" if x_ in ("++sample_pos", "sample_pos += 1", "sample_pos++") else x_ for x_ in sts]
         ctx.check(sts == ["Sample()", "sample_pos++"], R, body, m.qual, "{ %s }" % "; ".join(sts),
                   "record (once per iteration), then consume the requested time", "loop body changed")
         m = handler(ctx, tu, b, "SampleOnInterval", R)
